@@ -6,7 +6,7 @@ pub fn run(ctx: &Ctx) {
     ctx.set_rule("D1: proptest-generated single MOV (22 forms), XCHG (10 forms, both operand orders), PUSH/POP (register, segment register, memory, label; CS only for PUSH), PUSHF/POPF/LAHF/SAHF/XLAT from source text through the assembler, on stratified machine states with SS:SP in {SP=0,1,FFFEh,FFFFh; SS:SP around 2^20; SS=0; uniform}; D2: push/pop histories (vec(op,0..40)) against a reference stack; whole machine compared after every step. Non-trivial = memory/label/segment-register operand, SP wrap, physical wrap, SS != 0, or a history that pops a value pushed >= 2 operations earlier.");
     ctx.assume("PUSH SP may store the old or the new SP; the value POP SP leaves in SP is not compared; LAHF/SAHF: only the five defined flag bits are compared");
     ctx.set_exhaustive(false);
-    let n = ctx.tier.pick(48_000u32, 1_500_000u32);
+    let n = ctx.tier.pick(300_000u32, 4_000_000u32);
     run_forms_n(ctx, FormSet::Transfer, n, "Transfer");
     crate::hist::run_stack_histories(ctx);
 }
